@@ -65,6 +65,11 @@ MDial(s, e) ==
                          !.lossT = IF e.outcome = "established" THEN -1 ELSE e.t,
                          !.lossSeen = @ \/ e.outcome # "established"], TRUE, "")
 
+\* first ping of the silence: the first ping such that it and every later one got no answer
+FirstUnanswered(c) ==
+  LET un == {i \in 1..Len(c.pings) : \A j \in i..Len(c.pings) : c.pings[j].lat < 0} IN
+    IF un = {} THEN 0 ELSE CHOOSE i \in un : \A j \in un : i <= j
+
 (* ---- what the server sent ----------------------------------------------- *)
 Item(kind, data, op, t) == [kind |-> kind, data |-> data, op |-> op, t |-> t]
 MSrv(s, e) ==
@@ -89,8 +94,12 @@ MSrv(s, e) ==
                           !.conns[k].closeFrame = [hasBody |-> e.hasBody, status |-> e.status, reason |-> e.reason],
                           !.stop = TRUE], TRUE, "")
       [] e.kind \in {"eof", "reset", "bad", "badutf8"} ->     \* (badutf8 with validation skipped: a message, above)
-           MRes([s EXCEPT !.conns[k].ending = e.kind, !.conns[k].endT = e.t,
-                          !.lossT = IF s.appClose THEN @ ELSE e.t, !.lossSeen = TRUE], TRUE, "")
+           \* (a connection with a ping unanswered for longer than the timeout may have been given up already without any
+           \*  report - reconnecting runs do not call on_error -: the moment of the loss is then not observable)
+           LET u == FirstUnanswered(c)
+               maybeGivenUp == s.T > 0 /\ (s.R > 0 \/ s.ext) /\ u # 0 /\ e.t >= c.pings[u].t + s.T
+           IN MRes([s EXCEPT !.conns[k].ending = e.kind, !.conns[k].endT = e.t,
+                             !.lossT = IF s.appClose THEN @ ELSE IF maybeGivenUp THEN -2 ELSE e.t, !.lossSeen = TRUE], TRUE, "")
       [] OTHER -> MRes(s, TRUE, "")
 
 (* ---- callbacks ---------------------------------------------------------- *)
@@ -175,10 +184,6 @@ MPingSent(s, e) ==
   ELSE MRes([s EXCEPT !.conns[k].npings = @ + 1, !.conns[k].lastPingT = e.t,
                       !.conns[k].pings = Append(@, [t |-> e.t, pongT |-> -1, lat |-> e.lat])], TRUE, "")
 
-\* first ping of the silence: the first ping such that it and every later one got no answer
-FirstUnanswered(c) ==
-  LET un == {i \in 1..Len(c.pings) : \A j \in i..Len(c.pings) : c.pings[j].lat < 0} IN
-    IF un = {} THEN 0 ELSE CHOOSE i \in un : \A j \in un : i <= j
 
 \* evaluated when a connection is over (at time endT): was a silent peer detected in time?
 \* (with a reconnect interval or an external dispatcher the loss is not necessarily reported to on_error: there the
